@@ -1015,8 +1015,9 @@ class ComplexGammatoneFilterBank(LinearFilterBank):
         self._wrap_supports_ang = []
         self._wrap_below = False
         log_eps = np.log(config.EFFECTIVE_SUPPORT_THRESHOLD)
-        log_double_factorial = np.log(math.factorial(2 * order - 2))
-        log_factorial = np.log(math.factorial(order - 1))
+        # (lgamma(k + 1) = log(k!): the factorials themselves outgrow 64 bits from order 12 on)
+        log_double_factorial = math.lgamma(2 * order - 1)
+        log_factorial = math.lgamma(order)
         log_2 = np.log(2)
         if erb:
             alpha_const = log_2 * (2 * order - 1)
@@ -1351,6 +1352,6 @@ class GammaWindow(WindowFunction):
             alpha = 5 / width
             offs = width
         ln_c = self.order * np.log(alpha)
-        ln_c -= np.log(math.factorial(self.order - 1))
+        ln_c -= math.lgamma(self.order)  # log((order - 1)!)
         ret[:offs] = ret[:offs] ** (self.order - 1) * np.exp(-alpha * ret[:offs] + ln_c)
         return ret
